@@ -1,7 +1,7 @@
 """Metrics layer (C17)."""
 import collections
 from harness import drive_metrics, gen_graph, tlc
-from harness.runner import pmap
+from harness.runner import first_per_clause, pmap
 
 
 def corpus(ctx):
@@ -42,7 +42,7 @@ def run(ctx, gs=None):
         if len(t['ev']) > 3:
             out['nontrivial'] += 1
         if v[2]:
-            out['fails'].append({'tid': t['tid'], 'fails': v[2][:8], 'g': t['g']})
+            out['fails'].append({'tid': t['tid'], 'fails': first_per_clause(v[2]), 'g': t['g']})
     for t in traces[:1] + traces[-1:]:
         out['samples'].append({'metric_nodes': [[i+1, n['mdir'], n['hasref'], n['mtype']] for i, n in enumerate(t['g']['nodes']) if n['t'] == 'met'],
                                'classification': {k: t['ev'][0][k] for k in ('err', 'objectives', 'constraints')},
